@@ -123,6 +123,8 @@ def c08():
           exhaustive=not q)
     v.assume("regular expressions are the spellings of the binding table (alternation, character class, prefix, case flip); names contain no separators",
              "cases whose rows would land outside the table (offsets) are not demanded", "value ranges are enumerated as first selector only")
+    from . import heap_engine
+    heap_engine.stage(v, "C08", [(3, 2, 6, "RootsTwo", None)] if q else [(3, 3, 6, "RootsAll", None)])
     return v.finish()
 
 
